@@ -319,7 +319,7 @@ func judgeCommon(r *vrun.Run, sc scen, s snapshot, settledObserved bool, extra m
 	}
 	// (R3a) the action's own result although the action only finished after observing its signal
 	if (cls == "own-nil" || cls == "own-error") && s.Observed {
-		r.Violation(sig("own-result-after-signal-observed", "kind", sc.Kind, "parent", parentClass(sc)),
+		r.Violation(sig("own-result-after-signal-observed", "result", cls, "parent", parentClass(sc)),
 			fmt.Sprintf("%s returned the action's own result %q although the action only finished after observing its stop signal", sc.Runner, errStr(s.Res)), wit())
 	}
 	// cancelled kind needs a parent whose cancellation had at least begun
